@@ -85,6 +85,14 @@ def run_shard(params):
                 Pk = dict(P, stop_at_event=k)
                 runs.append((k, Pk, stop_sim.run_history(Pk)))
                 cnt["stop_points_enumerated"] = cnt.get("stop_points_enumerated", 0) + 1
+            # one more stop aimed at a moment when a JoinGroup of the client is waiting for its reply (mid-rebalance)
+            wins = [(a, b) for a, b in H0.get("join_windows", ()) if a >= lo]
+            if wins:
+                a, b = rng.choice(wins)
+                k = rng.randint(a, b) + rng.choice([0, 0, 1])
+                Pk = dict(P, stop_at_event=max(lo + 1, k))
+                runs.append((Pk["stop_at_event"], Pk, stop_sim.run_history(Pk)))
+                cnt["stop_points_in_join_window"] = cnt.get("stop_points_in_join_window", 0) + 1
         for k, Pk, H in runs:
             res["evaluations"] += 1
             if H.get("stop_not_issued"):
